@@ -336,7 +336,7 @@ def dsqrt (ws : List String) : String :=
       let cstr := if cs.isEmpty then "-" else ",".intercalate (cs.map fun c => s!"{c.i0}:{c.n}:{c.pn}")
       let mx (l : List (List UInt8)) : Nat := l.foldl (fun m x => max m x.length) 0
       let hdr := s!"{ds.length}/{(ds.map List.length).sum}/{mx ds}/{mx names}/{mx accs}/{mx descs}/{if amino then 5 else 2}"
-      s!"ok nseq={seqs.length} chunks={cstr} digest={h.toNat} eofs={(argNat? ws "consumers").getD 1} dup=0 miss=0 bad=-1 oob=0 err=0 lockerr=0 hdr={hdr}"
+      s!"ok nseq={seqs.length} chunks={cstr} digest={h.toNat} eofs={(argNat? ws "consumers").getD 1} dup=0 miss=0 bad=-1 oob=0 err=0 lockerr=0 leak=0 hdr={hdr}"
   | _, _, _, _, _, _ => "bad-op"
 
 def step' (st : S) (line : String) : S × String :=
